@@ -144,7 +144,17 @@ ASSUMPTIONS = [
 
 INIT_KW = {"label", "parent", "delete_existing_savefiles", "autoload", "autorun", "checkpoint", "self", "args", "kwargs"}
 NAMES = ["a", "b", "c", "x", "y", "val", "n_", "q1", "item", "other"]
-ANNS = [None, None, None, "int", "str", "None", "int | None", "typing.Union[int, str]", "typing.Optional[str]", "bool", "list"]
+ANNS = [None, None, None, "int", "str", "None", "int | None", "typing.Union[int, str]", "typing.Optional[str]", "bool", "list",
+        # typing.Annotated: directly, in a union / Optional, nested in a generic (the metadata is part of the annotation)
+        "typing.Annotated[int, 'angstrom']", "typing.Annotated[int, 'eV'] | None",
+        "typing.Optional[typing.Annotated[str, 'label']]", "list[typing.Annotated[int, 'site']]",
+        "typing.Annotated[list[typing.Annotated[int, 'i']], 'outer', 3]"]
+
+#: which plain annotation tells what values fit
+_ANN_BASE = {"typing.Annotated[int, 'angstrom']": "int", "typing.Annotated[int, 'eV'] | None": "int | None",
+             "typing.Optional[typing.Annotated[str, 'label']]": "typing.Optional[str]",
+             "list[typing.Annotated[int, 'site']]": "list[int]",
+             "typing.Annotated[list[typing.Annotated[int, 'i']], 'outer', 3]": "list[int]"}
 
 
 # ----------------------------------------------------------------------------- tokens <-> python values
@@ -273,6 +283,9 @@ class _Ctr:
         k = self.k
         if alts and rng.random() < 0.6:
             return rng.choice(alts)
+        ann = _ANN_BASE.get(ann, ann)
+        if ann == "list[int]":
+            return rng.choice([f"list(i{k})", "list()", f"list(i{k},i{k + 1000})"])
         if ann in ("object", "typing.Any"):
             ann = None
         if ann is None:
@@ -468,7 +481,27 @@ def gen_fn_case(rng, tier, idx, n=None, exhaustive=False):
             other = f"_T({j + 50}, {argl})"
             rets.append([f"I{j}:{i}", f"r{j}", f"r{j} = {call} if {params[i]['name']} is {lit(params[i]['default'])} else {other}", "_T"])
             continue
-        if kind == "t":
+        sp = rng.random()
+        if sp < 0.12:
+            # a subscript with a quoted key: the label is the text AS WRITTEN (double or single quotes)
+            qt = rng.choice(['"', '"', "'"])
+            rets.append([f"t{j}", f"d{j}[{qt}k{qt}]", f"d{j} = {{'k': {call}}}", "_T"])
+        elif sp < 0.3:
+            # the same call in a spelling that is not the canonical rendering of its ast: no blanks, blanks inside the
+            # parentheses, hex / underscore literals, arithmetic without blanks, a redundant pair of parentheses
+            nosp = ",".join([*[q["name"] for q in params]])
+            sep = "," if nosp else ""
+            text = rng.choice([
+                f"_T({j}{sep}{nosp})",
+                f"_T( {j}{' , ' if argl else ''}{' , '.join(q['name'] for q in params)} )",
+                f"_T(0x{j:x}{', ' if argl else ''}{argl})",
+                f"_T({j}+0{', ' if argl else ''}{argl})",
+                f"_T(1_0//10*{j}{sep}{nosp})",
+                f"_T({j}{', ' if argl else ''}{argl},)" if argl else f"_T({j},)",
+                f"_T(int({j}e0){', ' if argl else ''}{argl})",
+            ])
+            rets.append([f"t{j}", text, None, "_T"])
+        elif kind == "t":
             rets.append([f"t{j}", f"r{j}", f"r{j} = {call}", "_T"])
         else:
             rets.append([f"t{j}", call, None, "_T"])
